@@ -183,26 +183,48 @@ def run(tier, seed):
            "queries": 0, "solver_s": 0.0, "distinct": 0}
     try:
         ts = time.time()
+        VALIDATE.update({"seed": seed, "n": 8 if tier == "quick" else 30, "hist": []})
         viol, npaths, nq, covers, opaque = actor_history(prog, n)
         ob2["solver_s"] = round(time.time() - ts, 1)
         ob2["queries"] = nq
         ob2["sample"] = {"paths_explored": npaths, "covers": covers, "opaque_symbols": opaque[:20]}
         missing = [c for c in ("two hard-state saves in a row", "restart") if not covers.get(c)]
+        import os
+        from .common import native_histories
+        native_ok = not os.environ.get("VERIF_NO_NATIVE")
         if viol:
             ob2.update({"verdict": "violation", "message": viol["message"], "tags": viol["tags"], "counterexample": viol["model"]})
-            from lib import native
-            path = native.write_replay("C05", "c05", "model", [], {"engine": "smt", "mode": "model-only", "obligation": "s05_2_actor_history", "message": viol["message"], "model": viol["model"]})
-            ob2["replay_path"] = path
-            ob2["replay"] = {"path": path, "outcome": "model-only", "message": "request history for the RaftIndexManager actor"}
+            if viol.get("ops") and native_ok:
+                rr = native_histories("C05", "index", "violation", [{"ops": viol["ops"]}], {"obligation": "s05_2_actor_history", "model": viol["model"]}, viol["message"])
+                ob2["replay_path"] = rr["path"]
+                ob2["replay"] = {"path": rr["path"], "outcome": rr["outcome"], "message": rr["message"]}
+                if rr["outcome"] != "reproduced":
+                    ob2.update({"verdict": "inconclusive", "message": "engine-S counterexample (%s) did not reproduce on the real RaftIndexManager actor (%s %s)" % (viol["message"], rr["outcome"], rr["message"])})
+                else:
+                    ob2["message"] = "%s [real RaftIndexManager: %s]" % (viol["message"], rr["message"][:300])
+            else:
+                from lib import native
+                path = native.write_replay("C05", "c05", "model", [], {"engine": "smt", "mode": "model-only", "obligation": "s05_2_actor_history", "message": viol["message"], "model": viol["model"]})
+                ob2["replay_path"] = path
+                ob2["replay"] = {"path": path, "outcome": "model-only", "message": "request history for the RaftIndexManager actor"}
         elif missing:
             ob2.update({"verdict": "inconclusive", "message": "reachability witness never reached: %s" % missing})
         else:
             ob2.update({"verdict": "discharged", "distinct": npaths})
+            if VALIDATE["hist"] and native_ok:
+                val = native_histories("C05", "index", "validate", VALIDATE["hist"])
+                info["translator_validation_actor"] = val
+                if val["outcome"] != "passed":
+                    obligations.append({"engine": "smt", "harness": "s05_translator_validation", "verdict": "inconclusive", "queries": 0, "solver_s": 0,
+                                        "message": "the real RaftIndexManager actor and the encoding disagree on a sampled history: %s" % val["message"]})
     except rsparse.Unsupported as e:
         ob2.update({"verdict": "inconclusive", "message": "encoder met source it cannot encode: %s" % e})
     obligations.append(ob2)
     info["wall_s"] = round(time.time() - t0, 1)
     return {"obligations": obligations, "info": info}
+
+
+VALIDATE = {"seed": 0, "n": 8, "hist": []}
 
 
 def actor_history(prog, nsteps):
@@ -269,14 +291,22 @@ def actor_history(prog, nsteps):
             return ("violation", "%s: last-applied index differs from the last saved one" % where, log, "applied-lost")
         return None
 
+    ops_box = [[]]
+
     def thunk():
+        r = thunk_inner()
+        return r + (list(ops_box[0]),)
+
+    def thunk_inner():
         fs.files.clear()
+        ops_box[0] = []
         m = it._invoke(init_fn, ["idx"], self_ty="RaftIndexInnerManager")
         if not (isinstance(m, Enum) and m.variant == "Ok"):
             return ("violation", "a fresh index file cannot be initialised", [], "init")
         actor = Struct("RaftIndexManager", {"path": "idx", "lock_file": None, "inner": Some(m.payload[0]), "naming_inner_node_manage": NONE})
         ref = {"term": 0, "vote": 0, "member": [], "mac": [], "addrs": {}, "logs": [], "applied": 0}
         log = []
+        rec = ops_box[0] = []
         for i in range(nsteps):
             op = None
             for cand in range(6):
@@ -288,30 +318,36 @@ def actor_history(prog, nsteps):
             if op == 0:
                 msg = Enum("RaftIndexRequest", "SaveHardState", {"current_term": terms[i], "voted_for": votes[i]})
                 upd = {"term": terms[i], "vote": votes[i]}
+                rec.append({"op": "save-hard-state", "term": terms[i], "vote": votes[i]})
                 log.append(("save-hard-state", "term%d" % i, "vote%d" % i))
             elif op == 1:
                 msg = Enum("RaftIndexRequest", "SaveMember", {"member": [1, 2], "member_after_consensus": NONE, "node_addr": Some({1: "a:1", 2: "b:2"})})
                 upd = {"member": [1, 2], "addrs": {1: "a:1", 2: "b:2"}}
+                rec.append({"op": "save-member", "member": [1, 2], "member_after_consensus": None, "node_addr": {"1": "a:1", "2": "b:2"}})
                 log.append(("save-member", [1, 2], "with addresses"))
             elif op == 2:
                 msg = Enum("RaftIndexRequest", "SaveMember", {"member": [1], "member_after_consensus": Some([1, 3]), "node_addr": NONE})
                 upd = {"member": [1], "mac": [1, 3]}
+                rec.append({"op": "save-member", "member": [1], "member_after_consensus": [1, 3], "node_addr": None})
                 log.append(("save-member", [1], "joint [1,3]"))
             elif op == 3:
                 msg = Enum("RaftIndexRequest", "AddNodeAddr", [3, "c:3"])
                 na = dict(ref["addrs"])
                 na[3] = "c:3"
                 upd = {"addrs": na}
+                rec.append({"op": "add-node-addr", "id": 3, "addr": "c:3"})
                 log.append(("add-node-addr", 3))
             elif op == 4:
                 st = 5 + i
                 msg = Enum("RaftIndexRequest", "SaveLogs", [[Struct("LogRange", {"id": 1, "pre_term": 0, "start_index": st, "record_count": 0, "split_off_index": st,
                                                                                   "is_close": False, "mark_remove": False})]])
                 upd = {"logs": [st]}
+                rec.append({"op": "save-logs", "start": st})
                 log.append(("save-logs", st))
             else:
                 msg = Enum("RaftIndexRequest", "SaveLastAppliedLog", [applied[i]])
                 upd = {"applied": applied[i]}
+                rec.append({"op": "save-last-applied", "applied": applied[i]})
                 log.append(("save-last-applied", "applied%d" % i))
             r = it._invoke(handle, [actor, msg, "ctx"], self_ty="RaftIndexManager")
             if not (isinstance(r, Enum) and r.variant == "Ok"):
@@ -345,9 +381,11 @@ def actor_history(prog, nsteps):
     it.solver.add(*rng)
     paths = it.explore(thunk, max_paths=200000)
     it.solver.pop()
+    from .common import concretize
     s = z3.Solver()
     s.add(*rng)
     viol = None
+    ok_paths = []
     for pc, r, exc in paths:
         if exc is not None:
             viol = {"message": "panic in the index manager: %s" % exc, "tags": ["panic"], "model": {}}
@@ -358,10 +396,23 @@ def actor_history(prog, nsteps):
             if s.check() == z3.sat:
                 m_ = s.model()
                 viol = {"message": r[1], "tags": [r[3]], "model": {"history": [list(map(str, e)) for e in r[2]],
-                        "values": {str(v): m_.eval(v, model_completion=True).as_long() for v in terms + votes + applied}}}
+                        "values": {str(v): m_.eval(v, model_completion=True).as_long() for v in terms + votes + applied}},
+                        "ops": concretize(r[4], m_)}
             s.pop()
             if viol:
                 break
+        else:
+            ok_paths.append((pc, r[4]))
+    import random
+    rnd = random.Random(VALIDATE["seed"])
+    hist = []
+    for pc, ops in rnd.sample(ok_paths, min(VALIDATE["n"], len(ok_paths))):
+        s.push()
+        s.add(*pc)
+        if s.check() == z3.sat:
+            hist.append({"ops": concretize(ops, s.model())})
+        s.pop()
+    VALIDATE["hist"] = hist
     return viol, len(paths), it.queries, covers, sorted(it.opaque_seen)
 
 
